@@ -36,12 +36,14 @@ def uniqueGate (st : List ColStat) (table col : String) : Bool :=
   | some c => IQE.Gen.OptGates.unique_key_gate c.nulls c.ndv c.rows
   | none => false
 
-/-- `PackedJoinKeys::column_bounds(name)`: the widest (min, max) over every table that has the column -/
-def columnBounds (st : List ColStat) (col : String) : Option (Int × Int) :=
-  (st.filter (fun c => c.name == col)).foldl (fun acc c =>
-    match c.min, c.max with
-    | some lo, some hi => (match acc with | none => some (lo, hi) | some (a, b) => some (min a lo, max b hi))
-    | _, _ => acc) none
+/-- `PackedJoinKeys::key_bounds` (since /repo 3d7ebfd): the (min, max) of the base column the reference denotes — the
+    statistics of ITS table only.  In this family key references are plain scan columns, qualified by the table name or
+    unqualified and unique. -/
+def columnBounds (st : List ColStat) (rel : Option String) (col : String) : Option (Int × Int) :=
+  let cands := st.filter (fun c => c.name == col && (match rel with | some t => c.table == t | none => true))
+  match cands with
+  | [c] => (match c.min, c.max with | some lo, some hi => some (lo, hi) | _, _ => none)
+  | _ => none
 
 /-- the pack gate of `PackedJoinKeys::try_pack` assembled from the translated pieces (as IQE.Props.C03.packJoinGate) -/
 def packJoinGate (b0 b1 b2 b3 : Int × Int) : Option Int :=
@@ -129,8 +131,10 @@ def handler : Driver.Handler := fun c i => do
     | some pb =>
       match twoKeyJoin pb with
       | some (onL, onR) =>
-        let nm (e : Option PExpr) : String := (e.bind colName).getD "?"
-        let bs := [nm onL[0]?, nm onR[0]?, nm onL[1]?, nm onR[1]?].map (columnBounds st)
+        let bnd (e : Option PExpr) : Option (Int × Int) := match e with
+          | some (.col rel n) => columnBounds st rel n
+          | _ => none
+        let bs := [bnd onL[0]?, bnd onR[0]?, bnd onL[1]?, bnd onR[1]?]
         let predicted : Option Int := match bs with
           | [some b0, some b1, some b2, some b3] => packJoinGate b0 b1 b2 b3
           | _ => none
